@@ -17,8 +17,10 @@
 package staking
 
 import (
+	"bytes"
 	"io"
 	"math/big"
+	"sort"
 	"sync/atomic"
 
 	"github.com/youchainhq/go-youchain/common"
@@ -113,11 +115,17 @@ func (e EvidenceDoubleSign) EncodeRLP(w io.Writer) error {
 	}
 	data.Round = new(big.Int).Set(e.Round)
 	data.RoundIndex = e.RoundIndex
-	for h, s := range e.Signs {
+	// encode in a deterministic order
+	hashes := make([]common.Hash, 0, len(e.Signs))
+	for h := range e.Signs {
+		hashes = append(hashes, h)
+	}
+	sort.Slice(hashes, func(i, j int) bool { return bytes.Compare(hashes[i][:], hashes[j][:]) < 0 })
+	for _, h := range hashes {
 		data.Signs = append(data.Signs, struct {
 			Hash []byte
 			Sign []byte
-		}{Hash: h.Bytes(), Sign: s})
+		}{Hash: h.Bytes(), Sign: e.Signs[h]})
 	}
 	return rlp.Encode(w, []interface{}{data.Round, data.RoundIndex, data.Signs})
 }
